@@ -3,6 +3,7 @@ package props
 import (
 	"fmt"
 	"hash/crc32"
+	"strings"
 
 	"github.com/gcash/bchutil"
 
@@ -357,4 +358,81 @@ func runC03Fingerprint(c *mc.Ctx) {
 		c.NotExhaustive("colliders were found for fewer than half of the fingerprint hypotheses")
 	}
 	c.Sample("fingerprint", c03FP{Codec: "cashaddr", Hyp: "example", View: "symbol-values", Valid: "bitcoincash:" + c03CashBase("bitcoincash", 42), Collid: "bitcoincash:" + applySubs(c03CashBase("bitcoincash", 42), ref.CashCharset, []sub{{3, 1}})})
+}
+
+// Decode-call histories.  Whatever a decoder keeps between calls (the prefix it expanded last, a
+// register it saved, a flag set on an error path), the verdict on a string is a function of the
+// string.  Every sequence of <= 4 (5) calls over an alphabet of ten strings for two prefixes - valid,
+// too short, with a foreign character, with a one-symbol error, upper case, and CROSSED (the payload
+// that is valid under the other prefix: accepted exactly by a decoder that verifies with the other
+// prefix's state) - is run through DecodeCashAddress one call after the other; every verdict is
+// compared with the reference decoder's.
+type c03Calls struct {
+	Seq []int `json:"call_sequence"` // indices into c03CallAlphabet()
+}
+
+func c03CallAlphabet() []string {
+	p, q := "bitcoincash", "bchtest"
+	vp, vq := c03CashBase(p, 42), c03CashBase(q, 42)
+	one := applySubs(vp, ref.CashCharset, []sub{{5, 9}})
+	return []string{
+		p + ":" + vp, q + ":" + vq, // valid
+		p + ":qq", q + ":qq", // too short
+		p + ":" + vp[:10] + "b" + vp[11:], // a character outside the alphabet
+		p + ":" + vq, q + ":" + vp,        // crossed: valid under the other prefix only
+		p + ":" + one,                 // one symbol wrong
+		strings.ToUpper(p + ":" + vp), // upper case, valid
+		"simpleledger:" + c03CashBase("simpleledger", 42), // a third prefix, valid
+	}
+}
+
+func c03EvalCalls(w *mc.W, cas c03Calls) {
+	c := w.Ctx()
+	w.Eval()
+	al := c03CallAlphabet()
+	for i, k := range cas.Seq {
+		s := al[k]
+		_, okRef, _ := ref.CashStrictDecode(strings.ToLower(s))
+		got, msg, p := c03Decode("cashaddr", s)
+		w.Trace()
+		if p {
+			c.Violate("cashaddr-decoder-panics", "calls", cas, msg)
+			return
+		}
+		if got && !okRef {
+			c.Violate("cashaddr-verdict-depends-on-earlier-calls", "calls", cas, fmt.Sprintf("call %d: %q is accepted after the calls before it; on its own it is (and must be) rejected", i+1, s))
+			return
+		}
+		if !got && okRef {
+			// soundness only (see DESIGN 9.4): noted, not a violation of the statement
+			w.Outcome("call history: a valid string was rejected")
+			return
+		}
+	}
+	w.Outcome("call history: every verdict is that of the string alone")
+}
+
+func runC03Calls(c *mc.Ctx) {
+	n := len(c03CallAlphabet())
+	maxLen := mc.Pick(c, 4, 5)
+	var cases []c03Calls
+	for l := 2; l <= maxLen; l++ {
+		for i := int64(0); i < ipow(n, l); i++ {
+			seq := make([]int, l)
+			x := i
+			for j := l - 1; j >= 0; j-- {
+				seq[j] = int(x % int64(n))
+				x /= int64(n)
+			}
+			cases = append(cases, c03Calls{Seq: seq})
+		}
+	}
+	c.Space(fmt.Sprintf("sequences of 2..%d decode calls over ten strings (valid / short / foreign character / crossed prefixes / one error / upper case / third prefix)", maxLen), int64(len(cases)))
+	w := c.Worker() // one after the other: the point is what a call leaves behind
+	for _, cs := range cases {
+		w.State()
+		c03EvalCalls(w, cs)
+	}
+	w.Done()
+	c.Sample("calls", cases[len(cases)/2])
 }
